@@ -512,3 +512,49 @@ M('C17', 'c17-json-drops-last-chunk', 'openhtf/output/callbacks/__init__.py',
   "        for chunk in serialized_record:\n          outfile.write(chunk.encode() if isinstance(chunk, str) else chunk)",
   "        prev = None\n        for chunk in serialized_record:\n          if prev is not None: outfile.write(prev.encode() if isinstance(prev, str) else prev)\n          prev = chunk",
   'last chunk of the serialization never written')
+
+# ---------------------------------------------------------------- C10
+M('C10', 'c10-cache-before-transform', 'openhtf/core/measurements.py',
+  "    # Apply transform function if it is set.\n    if self.transform_fn:\n      value = self.transform_fn(value)\n\n    # Update the cached rendering with the value that is actually recorded.\n    if is_override:\n      _LOG.warning(\n          'Overriding previous measurement %s[%s] value of %s with %s',\n          self.name, coordinates, self.value_dict[coordinates], value)\n      self._cached_basetype_values = None\n    elif self._cached_basetype_values is not None:\n      self._cached_basetype_values.append(\n          data.convert_to_base_types(coordinates + (value,)))\n",
+  '    raw_value = value\n    if self.transform_fn:\n      value = self.transform_fn(value)\n\n    if is_override:\n      self._cached_basetype_values = None\n    elif self._cached_basetype_values is not None:\n      self._cached_basetype_values.append(\n          data.convert_to_base_types(coordinates + (raw_value,)))\n',
+  'dimensioned cache holds the pre-transform value (F9a regression)')
+M('C10', 'c10-checkpoints-missing', 'openhtf/core/test_record.py',
+  "        'checkpoints': self._cached_checkpoints,\n",
+  "",
+  'checkpoint records not rendered (F9b regression)')
+M('C10', 'c10-partially-set-outcome-stale', 'openhtf/core/measurements.py',
+  "        if self._cached:\n          self._cached['outcome'] = self.outcome.name\n      else:\n        self.validate()",
+  "      else:\n        self.validate()",
+  'live outcome stays UNSET while PARTIALLY_SET (F9c regression)')
+M('C10', 'c10-attachments-written-into-cache', 'openhtf/output/callbacks/json_factory.py',
+  "    as_dict = dict(as_dict)\n    as_dict['phases'] = [\n        dict(phase, attachments=dict(original_phase.attachments))\n        for phase, original_phase in zip(as_dict['phases'], test_rec.phases)\n    ]",
+  "    for phase, original_phase in zip(as_dict['phases'], test_rec.phases):\n      for name, attachment in original_phase.attachments.items():\n        phase['attachments'][name] = attachment",
+  'JSON conversion mutates the cached rendering (F9d regression)')
+M('C10', 'c10-no-notify-after-raising-validation', 'openhtf/core/measurements.py',
+  "    try:\n      if self.dimensions:\n        self.outcome = Outcome.PARTIALLY_SET\n        if self._cached:\n          self._cached['outcome'] = self.outcome.name\n      else:\n        self.validate()\n    finally:\n      # The value is stored even if its validation raised: tell the watchers.\n      if self._notification_cb:\n        self._notification_cb()",
+  "    if self.dimensions:\n      self.outcome = Outcome.PARTIALLY_SET\n      if self._cached:\n        self._cached['outcome'] = self.outcome.name\n    else:\n      self.validate()\n    if self._notification_cb:\n      self._notification_cb()",
+  'no update notification when validation raised (F9e regression)')
+M('C10', 'c10-outcome-cache-not-refreshed', 'openhtf/core/measurements.py',
+  "    finally:\n      if self._cached:\n        self._cached['outcome'] = self.outcome.name  # pytype: disable=bad-return-type",
+  "    finally:\n      pass",
+  'cached outcome not refreshed after validate()')
+M('C10', 'c10-override-keeps-cached-list', 'openhtf/core/measurements.py',
+  "          self.name, coordinates, self.value_dict[coordinates], value)\n      self._cached_basetype_values = None",
+  "          self.name, coordinates, self.value_dict[coordinates], value)",
+  'cached list not invalidated when a coordinate is overridden')
+M('C10', 'c10-scalar-cache-first-value', 'openhtf/core/measurements.py',
+  "    self._cached_value = data.convert_to_base_types(value)\n    self.is_value_set = True",
+  "    if not self.is_value_set: self._cached_value = data.convert_to_base_types(value)\n    self.is_value_set = True",
+  'scalar cached value keeps the first assignment')
+M('C10', 'c10-log-record-not-cached', 'openhtf/core/test_record.py',
+  "    self.log_records.append(log_record)\n    self._cached_log_records.append(log_record._asdict())",
+  "    self.log_records.append(log_record)\n    if log_record.level >= 30: self._cached_log_records.append(log_record._asdict())",
+  'log records below WARNING missing from the rendering')
+M('C10', 'c10-nan-token', 'openhtf/util/data.py',
+  "    if json_safe and (math.isinf(as_float) or math.isnan(as_float)):\n      return str(as_float)",
+  "    if json_safe and (math.isinf(as_float)):\n      return str(as_float)",
+  'NaN written as a bare NaN token')
+M('C10', 'c10-attachment-live-cache-missing', 'openhtf/core/test_state.py',
+  "    self._cached['attachments'][name] = attach_record._asdict()",
+  "    pass",
+  'attachments missing from the live phase view')
